@@ -172,6 +172,8 @@ func joinInto(dst *env, src env) bool {
 type Scenario struct {
 	Start  *Node // analysis begins just after this node's instruction
 	Result AV    // assumed abstract result of Start's instruction (first execution only)
+	// AtEntry: no assumption on Start; it is executed normally (used to explore "what happens from here on").
+	AtEntry bool
 	// FieldLoad gives an assumed abstract value for every load of a struct field (nil = unknown).
 	FieldLoad func(f *types.Var) (AV, bool)
 	// CallResult gives an assumed abstract result for opaque calls (all executions).
@@ -230,9 +232,11 @@ func (g *XG) Run(sc Scenario) *ScnResult {
 			push(tp)
 		}
 	}
-	// seed: out-state of the start node
+	// seed: out-state of the start node (or, with AtEntry, the start node itself is executed normally)
 	e0 := env{}
-	if v, ok := sc.Start.Instr.(ssa.Value); ok && !sc.Result.IsTop() {
+	if sc.AtEntry {
+		it.transfer(sc.Start, e0)
+	} else if v, ok := sc.Start.Instr.(ssa.Value); ok && !sc.Result.IsTop() {
 		e0[vkey{c: sc.Start.Ctx, v: v}] = sc.Result
 	}
 	for _, s := range it.feasible(sc.Start, e0) {
